@@ -28,7 +28,7 @@ D_GROUPS = {
     "d_nest4": ("MC_Yata", "D_nest4.cfg"),
 }
 TIERS = {
-    "quick": {"design": ["d_seq", "d_map", "d_nest"], "gen": ["seq3", "map3", "nesta3", "nestm3", "alg3", "algm3"], "random": 2},
+    "quick": {"design": ["d_seq", "d_map", "d_nest"], "gen": ["seq3", "map3", "nesta3", "nestm3", "alg3", "algm3"], "random": 3},
     "thorough": {"design": ["d_seq", "d_map", "d_nest", "d_seq4", "d_map4", "d_nest4"],
                  "gen": ["seq3", "map3", "nesta3", "nestm3", "alg3", "algm3", "seq4", "map4"], "random": 30},
 }
@@ -261,7 +261,8 @@ def run_all(tier, workdir):
     for i in range(plan["random"]):
         rs, rt = os.path.join(wd, "rs%d.ndjson" % i), os.path.join(wd, "rt%d.ndjson" % i)
         vlib.run_x(["yata-random", "--out-sched", rs, "--out", rt, "--seed", str(_h(seed, i, "yata") % (1 << 31)),
-                    "--behaviours", str(150 if tier == "quick" else 400), "--ops", str(12 if i % 2 == 0 else 40), "--ext", "", "--gc-off", "0"])
+                    "--behaviours", str(150 if tier == "quick" else 400), "--ops", str((12, 40, 30)[i % 3]), "--ext", "", "--gc-off", "0",
+                    "--rich", "1" if i % 3 == 2 else "0"])  # every third run: XML trees, formatting marks, embeds, sub-document references
         with open(rs) as f:
             rsch = [json.loads(ln) for ln in f if ln.strip()]
         nrand += len(rsch)
